@@ -55,6 +55,65 @@ var markBodies = []struct {
 	{"dynamic \"blk\" {\n  for_each = l\n  content {\n    x = s\n  }\n}\n", kStr},
 	{"blk {\n  x = p\n  dynamic \"inner\" {\n    for_each = s\n    content {\n      z = inner.value\n    }\n  }\n}\n", kList},
 	{"dynamic \"blk\" {\n  for_each = s ? l : []\n  content {\n    x = blk.value\n  }\n}\n", kBool},
+	// generated blocks without arguments of their own: only their number depends on the marked value
+	{"dynamic \"blk\" {\n  for_each = s\n  content {}\n}\n", kList},
+	{"dynamic \"blk\" {\n  for_each = s\n  content {\n    inner {\n      z = p\n    }\n  }\n}\n", kList},
+}
+
+// bodies with LABELLED blocks, decoded with BlockMapSpec / BlockObjectSpec
+var markLabelBodies = []struct {
+	src string
+	k   kind
+}{
+	{"dynamic \"lb\" {\n  for_each = s\n  labels = [lb.key]\n  content {}\n}\n", kList},
+	{"dynamic \"lb\" {\n  for_each = s\n  labels = [\"k${lb.key}\"]\n  content {\n    inner {\n      z = p\n    }\n  }\n}\n", kList},
+	{"dynamic \"lb\" {\n  for_each = s\n  labels = [lb.key]\n  content {\n    x = lb.value\n  }\n}\n", kMap},
+	{"dynamic \"lb\" {\n  for_each = s\n  labels = [lb.value]\n  content {}\n}\n", kList},
+	{"lb \"a\" {\n  x = s\n}\nlb \"b\" {\n}\n", kStr},
+	{"dynamic \"lb\" {\n  for_each = s ? l : [p]\n  labels = [lb.value]\n  content {}\n}\n", kBool},
+}
+
+var markLabelNested = hcldec.ObjectSpec{
+	"x":     &hcldec.AttrSpec{Name: "x", Type: cty.String},
+	"inner": &hcldec.BlockListSpec{TypeName: "inner", Nested: hcldec.ObjectSpec{"z": &hcldec.AttrSpec{Name: "z", Type: cty.String}}},
+}
+
+// H_MarksLabelled (C06, labelled blocks): as H_MarksBody for blocks collected
+// by label into a map or an object.
+func H_MarksLabelled() {
+	slen := vf.Param("slen", 1)
+	bi := vf.Concretize(vf.Choice(len(markLabelBodies)))
+	mb := markLabelBodies[bi]
+	var spec hcldec.Spec = &hcldec.BlockMapSpec{TypeName: "lb", LabelNames: []string{"k"}, Nested: markLabelNested}
+	if vf.Concretize(vf.Choice(2)) == 1 {
+		spec = &hcldec.BlockObjectSpec{TypeName: "lb", LabelNames: []string{"k"}, Nested: markLabelNested}
+	}
+	vf.Observe("body", bi)
+	c1, c2 := newContent(slen), newContent(slen)
+	mark := func(v cty.Value) cty.Value { return v.Mark("secret") }
+	v1, v2 := mkVal(mb.k, c1, c1, 0, mark), mkVal(mb.k, c2, c1, 0, mark)
+	dec := func(sval cty.Value) (cty.Value, bool) {
+		f, diags := hclsyntax.ParseConfig([]byte(mb.src), "m.hcl", hcl.InitialPos)
+		vf.Assert(!diags.HasErrors(), "body-catalogue-entry-parses")
+		ctx := scope(sval)
+		v, d := hcldec.Decode(dynblock.Expand(f.Body, ctx), spec, ctx)
+		return v, d.HasErrors()
+	}
+	r1, e1 := dec(v1)
+	r2, e2 := dec(v2)
+	if e1 || e2 {
+		vf.Reach("error")
+		return
+	}
+	u1, _ := r1.UnmarkDeep()
+	u2, _ := r2.UnmarkDeep()
+	same := u1.RawEquals(u2)
+	emptyForEach := mb.k == kList && (vf.Concretize(c1.n) == 0 || vf.Concretize(c2.n) == 0)
+	vf.AssertKnown(same || (r1.ContainsMarked() && r2.ContainsMarked()), "mark-lost-in-decoding: "+mb.src, "C06-empty-marked-for_each", emptyForEach)
+	if !same {
+		vf.Reach("differ")
+	}
+	vf.Reach("done")
 }
 
 var markSpecA = hcldec.ObjectSpec{
